@@ -6,6 +6,7 @@ import numpy as np
 from scipy.optimize import linprog, minimize
 
 from rv import atoms as AT
+from rv.common import user_array
 
 
 def _vec(rng, n, dens=0.7, scale=2.0):
@@ -87,6 +88,8 @@ def gen(rng, tier='quick', cones='LQX', ints=True, pinned=False, atom=None, fron
         if sense == 'eq':
             k = 1
             A = A[:1]
+            if not A.any():
+                A[0, int(rng.integers(nx))] = 1.0
             b = A @ xstar
         elif sense == 'le':
             b = A @ xstar + np.round(rng.uniform(0.05, 1.0, k), 2)
@@ -264,6 +267,10 @@ def violations(spec, x, tol=1e-6):
     x = np.asarray(x, float)
     out = []
     sc = 1 + np.max(np.abs(x))
+    if spec.get('empty_rows'):
+        for k, (sense, rhs) in enumerate(spec['empty_rows']):
+            if (sense == 'le' and 0 > rhs + tol) or (sense == 'eq' and abs(rhs) > tol):
+                out.append(('empty_row%d' % k, float(abs(rhs))))
     for i, b in enumerate(spec['bounds']):
         if x[i] < b['lo'] - tol * sc:
             out.append(('lb%d' % i, float(b['lo'] - x[i])))
@@ -361,8 +368,7 @@ def build(spec, variant=None):
     B.arrays = []
 
     def arr(a):
-        a = np.array(a, dtype=float)
-        a.flags.writeable = False
+        a = user_array(a, variant.get('arr'))
         B.arrays.append(a)
         return a
 
@@ -404,20 +410,29 @@ def build(spec, variant=None):
         lo = np.array([spec['bounds'][i]['lo'] for i in range(off[bi], off[bi + 1])])
         hi = np.array([spec['bounds'][i]['hi'] for i in range(off[bi], off[bi + 1])])
         styles = [spec['bounds'][i]['style'] for i in range(off[bi], off[bi + 1])]
-        if all(s == 'obj' for s in styles):
+        B.bound_constr = getattr(B, 'bound_constr', [])
+        if all(s == 'obj' for s in styles) and np.all(np.isfinite(lo)) and np.all(np.isfinite(hi)):
             if np.all(lo == lo[0]) and rng.random() < 0.5:
-                B.constr.append(m.st(x >= float(lo[0])))
+                c1 = m.st(x >= float(lo[0]))
             else:
-                B.constr.append(m.st(x >= arr(lo)))
-            B.constr.append(m.st(x <= arr(hi)))
+                c1 = m.st(x >= arr(lo))
+            c2 = m.st(x <= arr(hi))
+            B.bound_constr.append(('L', list(range(off[bi], off[bi + 1])), c1))
+            B.bound_constr.append(('U', list(range(off[bi], off[bi + 1])), c2))
         else:
             for j in range(len(lo)):
+                gi = int(off[bi] + j)
                 if styles[j] == 'obj':
-                    m.st(x[j] >= float(lo[j]))
-                    m.st(x[j] <= float(hi[j]))
+                    if np.isfinite(lo[j]):
+                        B.bound_constr.append(('L', [gi], m.st(x[j] >= float(lo[j]))))
+                    if np.isfinite(hi[j]):
+                        B.bound_constr.append(('U', [gi], m.st(x[j] <= float(hi[j]))))
                 else:
-                    m.st(1 * x[j] >= float(lo[j]))
-                    m.st(-1.0 * x[j] >= -float(hi[j]))
+                    if np.isfinite(lo[j]):
+                        B.bound_constr.append(('rowL', [gi], m.st(1 * x[j] >= float(lo[j]))))
+                    if np.isfinite(hi[j]):
+                        B.bound_constr.append(('rowU', [gi],
+                                               m.st(-1.0 * x[j] >= -float(hi[j]))))
     for l in spec['lin']:
         lhs = mat(l['A'])
         b = arr(l['b'])
@@ -428,6 +443,10 @@ def build(spec, variant=None):
         else:
             c = (lhs == b)
         B.constr.append(m.st(c))
+        B.lin_constr = getattr(B, 'lin_constr', []) + [c]
+    for (sense, rhs) in spec.get('empty_rows', []):
+        z0 = 0 * xs[0][0]
+        B.constr.append(m.st(z0 <= rhs if sense == 'le' else z0 == rhs))
     for c in spec['cvx']:
         B.constr.append(m.st(cvx_constraint(rso, B, c, rng)))
     for s in spec['special']:
@@ -639,3 +658,128 @@ def improve_search(spec, x, rng, tries=150):
         if gain > 0 and (best is None or gain > best[1]) and feasible(p):
             best = (p, gain)
     return best
+
+
+# ------------------------------------------------------------------ LP generator with all bound patterns
+
+PATTERNS = ['free', 'ge0', 'le0', 'lower', 'upper', 'both', 'fixed0', 'fixed']
+
+
+def gen_lp(rng, tier='quick', ints=False, outcome='optimal', patterns=None, front=None):
+    """Continuous (or mixed-integer) LP that is feasible and bounded by construction
+    (a primal point and a dual certificate are built first), with every bound pattern.
+    outcome: 'optimal' | 'infeasible' | 'unbounded' (by construction)."""
+    big = tier == 'thorough'
+    patterns = patterns or PATTERNS
+    nx = int(rng.integers(1, 7 if big else 5))
+    front = front or ('ro' if rng.random() < 0.6 else 'dro')
+    blocks = []
+    left = nx
+    while left > 0:
+        k = int(rng.integers(1, left + 1))
+        vt = 'C'
+        if ints and rng.random() < 0.6:
+            vt = 'B' if rng.random() < 0.5 else 'I'
+        blocks.append({'n': k, 'vtype': vt})
+        left -= k
+    vt_all = sum([[b['vtype']] * b['n'] for b in blocks], [])
+    xstar = np.round(rng.uniform(-2, 2, nx), 2)
+    bounds = []
+    rl = np.zeros(nx)
+    ru = np.zeros(nx)
+    for i in range(nx):
+        pat = patterns[int(rng.integers(len(patterns)))]
+        lo, hi = -np.inf, np.inf
+        if vt_all[i] == 'B':
+            xstar[i] = float(rng.integers(0, 2))
+            lo, hi = 0.0, 1.0
+            r = rng.random()
+            if r < 0.15:
+                hi = xstar[i] = 0.0
+            elif r < 0.3:
+                lo = xstar[i] = 1.0
+            pat = 'both'
+        elif vt_all[i] == 'I':
+            a = int(rng.integers(-3, 3))
+            w = int(rng.integers(1, 4))
+            lo, hi = float(a), float(a + w)
+            xstar[i] = float(rng.integers(a, a + w + 1))
+            pat = 'both'
+        elif pat == 'ge0':
+            lo = 0.0
+            xstar[i] = abs(xstar[i]) if rng.random() < 0.7 else 0.0
+        elif pat == 'le0':
+            hi = 0.0
+            xstar[i] = -abs(xstar[i]) if rng.random() < 0.7 else 0.0
+        elif pat == 'lower':
+            lo = float(np.round(xstar[i] - rng.uniform(0, 1.5), 2))
+        elif pat == 'upper':
+            hi = float(np.round(xstar[i] + rng.uniform(0, 1.5), 2))
+        elif pat == 'both':
+            lo = float(np.round(xstar[i] - rng.uniform(0, 1.5), 2))
+            hi = float(np.round(xstar[i] + rng.uniform(0, 1.5), 2))
+        elif pat == 'fixed0':
+            lo = hi = 0.0
+            xstar[i] = 0.0
+        elif pat == 'fixed':
+            lo = hi = float(xstar[i]) if xstar[i] != 0 else 0.5
+            xstar[i] = lo
+        if np.isfinite(lo):
+            rl[i] = rng.uniform(0, 1.5) * (rng.random() < 0.6)
+        if np.isfinite(hi):
+            ru[i] = rng.uniform(0, 1.5) * (rng.random() < 0.6)
+        bounds.append({'lo': lo, 'hi': hi, 'style': 'obj' if rng.random() < 0.7 else 'row',
+                       'pattern': pat})
+    lin = []
+    c = rl - ru
+    nrows = int(rng.integers(1, 4))
+    for _ in range(nrows):
+        k = int(rng.integers(1, 4))
+        A = np.round(rng.uniform(-2, 2, (k, nx)), 2) * (rng.random((k, nx)) < 0.7)
+        sense = ['le', 'ge', 'eq'][int(rng.integers(3))]
+        y = rng.uniform(0, 1.5, k) * (rng.random(k) < 0.7)
+        if sense == 'eq':
+            for r_ in range(k):
+                if not A[r_].any():      # ECOS crashes natively on an all-zero equality row
+                    A[r_, int(rng.integers(nx))] = 1.0
+            b = A @ xstar
+            c = c + A.T @ rng.uniform(-1, 1, k)
+        elif sense == 'le':
+            b = A @ xstar + np.round(rng.uniform(0, 1.0, k) * (rng.random(k) < 0.7), 2)
+            c = c - A.T @ y
+        else:
+            b = A @ xstar - np.round(rng.uniform(0, 1.0, k) * (rng.random(k) < 0.7), 2)
+            c = c + A.T @ y
+        lin.append({'A': A.tolist(), 'sense': sense, 'b': b.tolist()})
+    sense = 'min' if rng.random() < 0.5 else 'max'
+    spec = {'front': front, 'blocks': blocks, 'nx': nx, 'bounds': bounds, 'lin': lin, 'cvx': [],
+            'special': [], 'xstar': xstar.tolist(), 'spell': int(rng.integers(1 << 30)),
+            'pinned': False, 'empty_rows': [],
+            'obj': {'sense': sense, 'c': (c if sense == 'min' else -c).tolist(),
+                    'k': float(np.round(rng.uniform(-1, 1), 2)), 'cvx': None, 'pieces': None},
+            'outcome': outcome}
+    if rng.random() < 0.15:
+        spec['empty_rows'].append(('le', float(np.round(rng.uniform(0, 1), 2))))
+    if outcome == 'infeasible':
+        r = rng.random()
+        if r < 0.4:
+            spec['empty_rows'].append(('le', -1.0))
+        elif r < 0.5:
+            spec['empty_rows'].append(('eq', 1.0))
+        else:
+            a = np.round(rng.uniform(-2, 2, nx), 2)
+            a[0] = a[0] or 1.0
+            beta = float(np.round(a @ xstar, 3))
+            spec['lin'].append({'A': [a.tolist()], 'sense': 'le', 'b': [beta - 1.0]})
+            spec['lin'].append({'A': [a.tolist()], 'sense': 'ge', 'b': [beta + 1.0]})
+    elif outcome == 'unbounded':
+        # a new free continuous variable that appears only in the objective
+        spec['blocks'].append({'n': 1, 'vtype': 'C'})
+        spec['bounds'].append({'lo': -np.inf, 'hi': np.inf if rng.random() < 0.5 else 3.0,
+                               'style': 'obj', 'pattern': 'free'})
+        spec['nx'] = nx + 1
+        for l in spec['lin']:
+            l['A'] = [row + [0.0] for row in l['A']]
+        spec['obj']['c'] = spec['obj']['c'] + [1.0 if sense == 'min' else -1.0]
+        spec['xstar'] = spec['xstar'] + [0.0]
+    return spec
